@@ -1,6 +1,6 @@
 (** Pins/C15.v — the statements of the C15 theorems, pinned. *)
 From PdfV Require Import Base.Prelude Gen.Generated Typed.Prim Typed.Schema Typed.Derive Typed.Hand
-  Typed.DictProofs Typed.DeriveProofs Typed.HandProofs Typed.ReadProofs Typed.TopProofs Properties.C15.
+  Typed.DictProofs Typed.DeriveProofs Typed.HandProofs Typed.ReadProofs Typed.TopProofs Typed.EncodingProofs Properties.C15.
 
 Check C15_value_rt : forall SC H allow E (hand_ok : N -> value -> Prop),
   (forall i x p, hand_ok i x -> h_write H i x = TOk p ->
@@ -69,3 +69,11 @@ Check C15_generated_top_wf : forallb (fun s => negb (rw s) || schema_wf_top s) (
 
 Check C15_hand_Action : forall rs v p, action_ok v -> write_action v = TOk p ->
   exists v', read_action rs p = TOk v' /\ write_action v' = TOk p.
+Check C15_hand_Encoding : forall rs b m, base_ok b -> codes_ok 0 m = true ->
+  exists p, write_encoding (enc_value b m) = TOk p
+    /\ read_encoding rs p = TOk (enc_value b m)
+    /\ (m <> [] -> exists bp, write_base_encoding b = TOk bp /\
+                    p = PDict [(k_BaseEncoding, bp); (k_Differences, PArr (run_form (group m)))])
+    /\ (m = [] -> write_base_encoding b = TOk p)
+    /\ expand (group m) = m /\ maximal (group m).
+Check C15_hand_NameTree : forall rs v p, write_nametree v = TOk p -> read_nametree rs p = TOk v.
